@@ -246,10 +246,19 @@ impl TryFromTerm for f64 {
                 // the value space of xsd:float is single precision:
                 // round to the nearest f32 first (exact when widened to f64)
                 lex.parse::<f32>().map(f64::from)
-            } else if Term::eq(&term.datatype().unwrap(), xsd::double)
-                || Term::eq(&term.datatype().unwrap(), xsd::decimal)
-            {
+            } else if Term::eq(&term.datatype().unwrap(), xsd::double) {
                 lex.parse()
+            } else if Term::eq(&term.datatype().unwrap(), xsd::decimal) {
+                // the value space of xsd:decimal has a single zero:
+                // "-0", "-0.0"... denote it, and must not become the negative zero of xsd:double
+                // (a non-zero negative decimal that *rounds* to zero keeps its sign)
+                lex.parse().map(|v: f64| {
+                    if v == 0.0 && !lex.bytes().any(|b| (b'1'..=b'9').contains(&b)) {
+                        0.0
+                    } else {
+                        v
+                    }
+                })
             } else {
                 "wrong datatype".parse()
             }
